@@ -406,5 +406,5 @@ Proof.
     destruct (remove_first_pev (pev_eqb PShutdown) (pending s)) as [p'|] eqn:R; [|exact P'].
     destruct (remove_first_split _ _ _ R) as (l1 & l2 & E & ->).
     destruct (ps_pop EV' JU' s l1 _ l2 P' E) as (P1 & _).
-    unfold apply_shutdown, PS. simp_st. apply pc_shutdown. apply pc_deliver; [exact P1 | discriminate].
+    unfold apply_shutdown, PS. simp_st. apply pc_shutdown with (p := l1 ++ l2). apply pc_deliver; [exact P1 | discriminate].
 Qed.
